@@ -656,6 +656,9 @@ def extract_segment(relpath, qual, ann):
         ed.add(seg_loops[k]["body"][1] - 1, seg_loops[k]["body"][1] - 1, "\n" + ptext.rstrip() + "\n", "A1")
     apply_maploops(ed, it, seg_closures, src, ann, qual, relpath)
     apply_forloops(ed, seg_loops, src, ann, qual)
+    apply_fund_sums(ed, src, s0, e0)
+    apply_anyloops(ed, it, seg_closures, src, ann, qual)
+    apply_findloops(ed, it, seg_closures, src, ann, qual)
     if ann.get("tail") and k1 == len(st):
         ed.add(st[-1]["span"][0], st[-1]["span"][0], ann["tail"].rstrip() + "\n", "A1")
     body_text, segs = ed.render()
